@@ -189,4 +189,212 @@ theorem C11_0x93_only_at_limit_partial (caps : Caps) (ops : List Op) (h : fc11Op
   rw [h0] at hacc
   exact ⟨h0, by simpa using hacc⟩
 
+/-! ### the send side -/
+
+/-- **C11, send side (all 12 op kinds, all histories of the class)**: every registered client with a Receive Maximum
+    (`maxSend > 0`) has `sendQuota + (outbound records of type 3/6 that are not deferred) = maxSend` -/
+theorem C11_send_quota_accounting_partial (caps : Caps) (ops : List Op)
+    (h : fc11OpsOK fc11SendP (init caps) ops) :
+    ∀ id k, (id, k) ∈ (run (init caps) ops).clients → 0 < (getObj (run (init caps) ops) k).maxSend →
+      (getObj (run (init caps) ops) k).sendQuota + outboundOpen (getObj (run (init caps) ops) k)
+        = (getObj (run (init caps) ops) k).maxSend :=
+  fun id k hm => (fc11_run fc11SendP_laws _ ops (WF_init caps) (fc11_init fc11SendP_laws caps) h k ⟨id, hm⟩).1
+
+theorem C11_send_quota_accounting_step (s : Server) (op : Op) (hwf : WF s) (hf : OpFresh s op) (hst : Fc11Store s)
+    (hg : fc11OpOK fc11SendP s op) (h : Fc11Inv fc11SendP s) : Fc11Inv fc11SendP (step s op).1 :=
+  fc11_step fc11SendP_laws s op hwf hf hst hg h
+
+/-- **C11, no send beyond the quota**: on the send-side class (a) the unacknowledged, non-deferred outbound records of
+    a registered client never exceed its Receive Maximum, and no record is marked deferred while send quota is left;
+    (b) a delivery of a QoS > 0 message to a client whose send quota is 0 writes no packet at all (it is stored as
+    deferred) — so a new PUBLISH is written only if the send quota was positive (or `maxSend = 0`: no limit). -/
+theorem C11_no_send_beyond_quota_partial (caps : Caps) (ops : List Op)
+    (h : fc11OpsOK fc11SendP (init caps) ops) :
+    (∀ id k, (id, k) ∈ (run (init caps) ops).clients → 0 < (getObj (run (init caps) ops) k).maxSend →
+      outboundOpen (getObj (run (init caps) ops) k) ≤ (getObj (run (init caps) ops) k).maxSend ∧
+      (0 < (getObj (run (init caps) ops) k).sendQuota →
+        ∀ m ∈ (getObj (run (init caps) ops) k).inflight, 0 ≤ m.expiry)) ∧
+    (∀ i sub f pk, (getObj (run (init caps) ops) i).sendQuota = 0 → 0 < (getObj (run (init caps) ops) i).maxSend →
+      shapeQos (run (init caps) ops).caps sub pk.qos > 0 →
+      ∀ conn w, Out.wrote conn w ∉ (publishToClientCore (run (init caps) ops) i sub f pk).2) := by
+  refine ⟨fun id k hm hpos => ?_, fun i sub f pk h0 hm hq => fc11_core_defers _ i sub f pk h0 hm hq⟩
+  have hP := fc11_run fc11SendP_laws _ ops (WF_init caps) (fc11_init fc11SendP_laws caps) h k ⟨id, hm⟩
+  have := hP.1 hpos
+  exact ⟨by omega, hP.2 hpos⟩
+
+/-! ### non-vacuity and the excluded classes (each by `decide`)
+
+Client 1 = `s` (`[115]`, Receive Maximum 2, subscribed to `t` at QoS 2), client 2 = `p` (`[112]`). -/
+
+/-- in both classes: QoS 2 publish + duplicate (answered 0x91) + PUBREL, QoS 1 publishes, deferral at send quota 0,
+    a parked and released CONNECT, housekeeping ticks, an inline publish, a parked drop and its release, a drop -/
+def fc11DemoBoth : List Op :=
+  [.connect 1 { ver := 5, id := [115], rm := some 2 },
+   .recv 1 (.subscribe 1 0 [{ filter := [116], qos := 2 }]),
+   .connectHold 2 { ver := 5, id := [112] } 1,
+   .release 2,
+   .recv 2 (.publish 2 false false 1 [116] [97] 0 none),
+   .recv 2 (.publish 1 false false 2 [116] [98] 0 none),
+   .recv 2 (.publish 2 false false 1 [116] [97] 0 none),
+   .recv 2 (.pubrel 1 0),
+   .recv 2 (.publish 1 false false 3 [116] [99] 0 none),
+   .tick "clients" (NOW + 5),
+   .tick "inflight" (NOW + 5),
+   .inlinePublish [116] [99] false 1,
+   .dropHold 1, .release 1,
+   .drop 2]
+
+set_option maxRecDepth 100000 in
+example : fc11OpsOK fc11RecvP (init {}) fc11DemoBoth ∧ fc11OpsOK fc11SendP (init {}) fc11DemoBoth := by decide
+
+set_option maxRecDepth 100000 in
+/-- mid-history (after the ninth op): the publisher's exchange is closed again, the subscriber holds two sent and one
+    deferred message at send quota 0 of 2 -/
+example :
+    let s := run (init {}) (fc11DemoBoth.take 9)
+    ((getObj s 1).sendQuota, outboundOpen (getObj s 1), (getObj s 1).maxSend, (getObj s 1).inflight.length,
+     (getObj s 2).recvQuota, inboundOpen (getObj s 2)) = (0, 2, 2, 3, 1024, 0) := by decide
+
+set_option maxRecDepth 100000 in
+/-- after the fifth op the publisher has one inbound exchange open: 1023 + 1 = 1024 -/
+example :
+    let s := run (init {}) (fc11DemoBoth.take 5)
+    ((getObj s 2).recvQuota, inboundOpen (getObj s 2), (getObj s 2).maxRecv) = (1023, 1, 1024) := by decide
+
+/-- an outbound QoS 2 exchange acknowledged by PUBREC / PUBCOMP is in the SEND class … -/
+def fc11DemoOut : List Op :=
+  [.connect 1 { ver := 5, id := [115], rm := some 2 },
+   .recv 1 (.subscribe 1 0 [{ filter := [116], qos := 2 }]),
+   .connect 2 { ver := 5, id := [112] },
+   .recv 2 (.publish 1 false false 1 [116] [97] 0 none),
+   .recv 2 (.publish 2 false false 2 [116] [98] 0 none),
+   .recv 1 (.pubrec 2 0),
+   .recv 1 (.pubcomp 2 0),
+   .recv 1 (.puback 1 0)]
+
+set_option maxRecDepth 100000 in
+example : fc11OpsOK fc11SendP (init {}) fc11DemoOut := by decide
+
+set_option maxRecDepth 100000 in
+/-- … but not in the RECEIVE class (F11a: `processPubrec` decrements the RECEIVE quota of the subscriber, which has no
+    inbound exchange open: 1023 + 0 ≠ 1024; Go: server.go `processPubrec` → `cl.State.Inflight.DecreaseReceiveQuota()`);
+    PUBCOMP gives the unit back -/
+theorem C11_recv_counterexample_outbound_qos2 :
+    ¬ fc11OpsOK fc11RecvP (init {}) (fc11DemoOut.take 6) ∧
+    (let s := run (init {}) (fc11DemoOut.take 6)
+     ((getObj s 1).recvQuota, inboundOpen (getObj s 1), (getObj s 1).maxRecv) = (1023, 0, 1024)) ∧
+    (let s := run (init {}) (fc11DemoOut.take 7)
+     ((getObj s 1).recvQuota, inboundOpen (getObj s 1), (getObj s 1).maxRecv) = (1024, 0, 1024)) := by decide
+
+set_option maxRecDepth 100000 in
+/-- excluded, receive side: a session resumed with an open inbound exchange gets a full receive quota on top of the
+    inherited record (F11c; Go: `inheritClientSession` → `ResetReceiveQuota`): 1024 + 1 ≠ 1024 -/
+theorem C11_recv_counterexample_resumption :
+    let ops : List Op :=
+      [.connect 1 { ver := 5, id := [112], clean := false, sei := some 100 },
+       .recv 1 (.publish 2 false false 1 [116] [97] 0 none),
+       .drop 1,
+       .connect 2 { ver := 5, id := [112], clean := false, sei := some 100 }]
+    fc11OpsOK fc11RecvP (init {}) (ops.take 3) ∧ ¬ fc11OpsOK fc11RecvP (init {}) ops ∧
+    ([112], 2) ∈ (run (init {}) ops).clients ∧
+    ((getObj (run (init {}) ops) 2).recvQuota, inboundOpen (getObj (run (init {}) ops) 2)) = (1024, 1) := by decide
+
+set_option maxRecDepth 100000 in
+/-- excluded, receive side: a PUBREL with an error reason code deletes the record of the inbound exchange without
+    returning the quota unit (Go: `processPubrel`, the `ReasonCode >= ErrUnspecifiedError.Code` branch): 1023 + 0 -/
+theorem C11_recv_counterexample_pubrel_error :
+    let ops : List Op :=
+      [.connect 1 { ver := 5, id := [112] },
+       .recv 1 (.publish 2 false false 1 [116] [97] 0 none),
+       .recv 1 (.pubrel 1 0x92)]
+    fc11OpsOK fc11RecvP (init {}) (ops.take 2) ∧ ¬ fc11OpsOK fc11RecvP (init {}) ops ∧
+    ((getObj (run (init {}) ops) 1).recvQuota, inboundOpen (getObj (run (init {}) ops) 1)) = (1023, 0) := by decide
+
+set_option maxRecDepth 100000 in
+/-- excluded, receive side: in-flight housekeeping expires the record of an open inbound exchange without returning
+    the quota unit (Go: `ClearExpiredInflights`) -/
+theorem C11_recv_counterexample_inflight_expiry :
+    let ops : List Op :=
+      [.connect 1 { ver := 5, id := [112] },
+       .recv 1 (.publish 2 false false 1 [116] [97] 0 none),
+       .tick "inflight" (NOW + 100000)]
+    fc11OpsOK fc11RecvP (init {}) (ops.take 2) ∧ ¬ fc11OpsOK fc11RecvP (init {}) ops ∧
+    ((getObj (run (init {}) ops) 1).recvQuota, inboundOpen (getObj (run (init {}) ops) 1)) = (1023, 0) := by decide
+
+set_option maxRecDepth 100000 in
+/-- excluded, receive side: a PUBCOMP (any packet id — `processPubcomp` does not look the record up) raises the receive
+    quota while an inbound exchange is open (F11b): 1024 + 1 -/
+theorem C11_recv_counterexample_pubcomp :
+    let ops : List Op :=
+      [.connect 1 { ver := 5, id := [112] },
+       .recv 1 (.publish 2 false false 1 [116] [97] 0 none),
+       .recv 1 (.pubcomp 7 0)]
+    fc11OpsOK fc11RecvP (init {}) (ops.take 2) ∧ ¬ fc11OpsOK fc11RecvP (init {}) ops ∧
+    ((getObj (run (init {}) ops) 1).recvQuota, inboundOpen (getObj (run (init {}) ops) 1)) = (1024, 1) := by decide
+
+set_option maxRecDepth 100000 in
+/-- the LITERAL candidate (type 5 records only) fails where `RecvAcc` holds: a QoS 1 publish whose PUBACK cannot be
+    written (the peer is gone) leaves the type 4 record and the decremented quota (Go: `processPublish` returns the
+    `WritePacket` error before `IncreaseReceiveQuota`). The history is in the class; `inboundOpen` counts the record. -/
+theorem C11_recv_literal_candidate_counterexample :
+    let ops : List Op :=
+      [.connect 1 { ver := 5, id := [112], sei := some 100 },
+       .recvCut 1 (.publish 1 false false 1 [116] [97] 0 none)]
+    fc11OpsOK fc11RecvP (init {}) ops ∧ ([112], 1) ∈ (run (init {}) ops).clients ∧
+    ((getObj (run (init {}) ops) 1).recvQuota, inboundOpen5 (getObj (run (init {}) ops) 1),
+     inboundOpen (getObj (run (init {}) ops) 1), (getObj (run (init {}) ops) 1).maxRecv) = (1023, 0, 1, 1024) := by
+  decide
+
+set_option maxRecDepth 100000 in
+/-- excluded, send side (F11b): the PUBREL that completes an INBOUND QoS 2 exchange raises the SEND quota while the
+    client's outbound message is still unacknowledged: 2 + 1 ≠ 2 (Go: `processPubrel` → `IncreaseSendQuota`) -/
+theorem C11_send_counterexample_inbound_qos2 :
+    let ops : List Op :=
+      [.connect 1 { ver := 5, id := [115], rm := some 2 },
+       .recv 1 (.subscribe 1 0 [{ filter := [116], qos := 1 }]),
+       .recv 1 (.publish 2 false false 7 [116] [97] 0 none),
+       .recv 1 (.pubrel 7 0)]
+    fc11OpsOK fc11SendP (init {}) (ops.take 3) ∧ ¬ fc11OpsOK fc11SendP (init {}) ops ∧
+    fc11OpsOK fc11RecvP (init {}) ops ∧
+    ((getObj (run (init {}) ops) 1).sendQuota, outboundOpen (getObj (run (init {}) ops) 1),
+     (getObj (run (init {}) ops) 1).maxSend) = (2, 1, 2) := by decide
+
+set_option maxRecDepth 100000 in
+/-- excluded, send side (F09): an acknowledgement frees send quota while a message is deferred; `nextImmediate` writes
+    the deferred message, DELETES its record and takes the quota unit: 0 + 1 ≠ 2, and the sent message is untracked -/
+theorem C11_send_counterexample_deferred_release :
+    let ops : List Op := fc11DemoOut.take 5 ++
+      [.recv 2 (.publish 1 false false 3 [116] [99] 0 none), .recv 1 (.puback 1 0)]
+    fc11OpsOK fc11SendP (init {}) (ops.take 6) ∧ ¬ fc11OpsOK fc11SendP (init {}) ops ∧
+    ((getObj (run (init {}) ops) 1).sendQuota, outboundOpen (getObj (run (init {}) ops) 1),
+     (getObj (run (init {}) ops) 1).maxSend, (getObj (run (init {}) ops) 1).inflight.map (·.id)) = (0, 1, 2, [2]) := by
+  decide
+
+set_option maxRecDepth 100000 in
+/-- excluded, send side: a PUBREC with an error reason code deletes the outbound record without returning the quota
+    unit (Go: `processPubrec`, error branch): 1 + 0 ≠ 2 -/
+theorem C11_send_counterexample_pubrec_error :
+    let ops : List Op :=
+      [.connect 1 { ver := 5, id := [115], rm := some 2 },
+       .recv 1 (.subscribe 1 0 [{ filter := [116], qos := 2 }]),
+       .connect 2 { ver := 5, id := [112] },
+       .recv 2 (.publish 2 false false 2 [116] [98] 0 none),
+       .recv 1 (.pubrec 1 0x80)]
+    fc11OpsOK fc11SendP (init {}) (ops.take 4) ∧ ¬ fc11OpsOK fc11SendP (init {}) ops ∧
+    ((getObj (run (init {}) ops) 1).sendQuota, outboundOpen (getObj (run (init {}) ops) 1),
+     (getObj (run (init {}) ops) 1).maxSend) = (1, 0, 2) := by decide
+
+set_option maxRecDepth 100000 in
+/-- excluded, send side (F11c): a resumed session gets a full send quota and every stored message resent: 2 + 1 ≠ 2 -/
+theorem C11_send_counterexample_resumption :
+    let ops : List Op :=
+      [.connect 1 { ver := 5, id := [115], rm := some 2, clean := false, sei := some 100 },
+       .recv 1 (.subscribe 1 0 [{ filter := [116], qos := 1 }]),
+       .inlinePublish [116] [99] false 1,
+       .drop 1,
+       .connect 2 { ver := 5, id := [115], rm := some 2, clean := false, sei := some 100 }]
+    fc11OpsOK fc11SendP (init {}) (ops.take 4) ∧ ¬ fc11OpsOK fc11SendP (init {}) ops ∧
+    ((getObj (run (init {}) ops) 2).sendQuota, outboundOpen (getObj (run (init {}) ops) 2),
+     (getObj (run (init {}) ops) 2).maxSend) = (2, 1, 2) := by decide
+
 end Mochi.Broker
